@@ -73,7 +73,9 @@ def run(ctx):
               f"isvalid_version_re suffix alternation is the five PMS suffixes (got {[sorted(b) for b in br2]})", node=node2)
     # omitted suffix number means 0: every .group(2) is consumed as int("0" + ...)
     g2 = [c for c in A.calls(ver_cmp.node) if A.call_attr(c) == "group" and c.args and A.is_const(c.args[0], 2)]
-    ctx.require(len(g2) >= 4, "ver_cmp: fewer than 4 uses of the suffix-number group; idiom changed")
+    deferred = []  # idiom anchors that went missing: reported after the rules that do not depend on them have been decided
+    if len(g2) < 4:
+        deferred.append("ver_cmp: fewer than 4 uses of the suffix-number group; idiom changed")
     for c in g2:
         par = getattr(c, "_parent", None)
         ok = (
@@ -89,7 +91,8 @@ def run(ctx):
         ok = isinstance(par, ast.Subscript) and dotted(par.value) == "suffix_value"
         ctx.check("R1", ver_cmp, ok, f"group1-lookup@{A.unparse(A.stmt_of(c))[:40]}",
                   "suffix name is ranked through suffix_value[...]", node=c)
-    ctx.floor("R1", 9)
+    if not deferred:
+        ctx.floor("R1", 9)
 
     # ---- R5 orientation of every three-way comparison in ver_cmp ----------
     params = ver_cmp.params()
@@ -108,6 +111,7 @@ def run(ctx):
                   node=call)
 
     SideInterp(seeds, on_call).run(ver_cmp.node)
+    ctx.require(not deferred, "; ".join(deferred))
     ctx.floor("R5", 8)
     # suffix lists are consumed front to back: no from-the-end index on a version's suffix list
     for n in A.body_walk(ver_cmp.node):
